@@ -250,6 +250,33 @@ def r16_4(ctx, rep):
         raise MechanismMissing(R, "expected updates of the min, max, nominal and fixed accumulators from the alias's attributes, found %d" % n)
 
 
+@SPEC.rule(
+    "R16.5",
+    "an own start is kept: every statement in the alias loop that overwrites the start accumulator is dominated by a branch on which "
+    "`isinstance(<start>, _DefaultValue)` is known to hold — the canonical variable (or an alias merged earlier) had no explicit start; "
+    "reaching the assignment from `the alias has an equal start` or from a conflict test that did not fire replaces an explicit start "
+    "(for a negative alias: by its negation)",
+)
+def r16_5(ctx, rep):
+    from ..cfg import assume_truth
+    R = "R16.5"
+    outer, inner, cst, ast_ = _merge_loops(ctx, R)
+    acc = _accumulators(outer, inner, cst)
+    v = acc.get("start")
+    if v is None:
+        raise MechanismMissing(R, "start accumulator not found")
+    cfg = CFG(ast.Module(body=[inner], type_ignores=[]), R)
+    ups = [x for x in cfg.stmts() if isinstance(x.ast, (ast.Assign, ast.AugAssign)) and any(is_name(t, v) for t in (x.ast.targets if isinstance(x.ast, ast.Assign) else [x.ast.target]))]
+    if not ups:
+        raise MechanismMissing(R, "the start accumulator is never updated in the alias loop")
+    for x in ups:
+        doms = cfg.dominated_by(x.id, lambda y: y.kind == "assume")
+        ok = any(assume_truth(g, "isinstance(%s, _DefaultValue)" % v) is True for g in doms)
+        rep.ob(R, SITE, "`%s` only when no explicit start is held" % norm(x.ast)[:60], ok,
+               "the assignment is reachable while `%s` already is an explicit start value (no dominating branch establishes "
+               "isinstance(%s, _DefaultValue)): a start written on the canonical variable is overwritten by an alias's" % (v, v))
+
+
 # -- seeded variants ---------------------------------------------------------
 from ._mut import delete_stmt_where, replace_in_func  # noqa: E402
 
@@ -313,6 +340,21 @@ def _m_skip_unbounded(mod):
                         if isinstance(st, ast.Assign) and norm(st).startswith("m = ca.fmax(m, alias_state.min if sign == 1"):
                             lst[i] = ast.If(test=ast.parse("np.isfinite(alias_state.min)", mode="eval").body, body=[st], orelse=[])
                             return True
+        return False
+
+    return mod if replace_in_func(mod, "Model._simplify_once", edit) else None
+
+
+@SPEC.mutant("equal-start branch falls through to the assignment", MODEL, "R16.5", "only when no explicit start")
+def _m_start_fallthrough(mod):
+    def edit(fn):
+        for n in ast.walk(fn):
+            if isinstance(n, ast.If) and norm(n.test) == "isinstance(start, _DefaultValue)" and n.orelse:
+                n.test = ast.parse("isinstance(start, _DefaultValue) or start == alias_start_mx", mode="eval").body
+                return True
+            if isinstance(n, ast.If) and norm(n.test) == "not isinstance(start, _DefaultValue)" and n.orelse:
+                n.test = ast.parse("not isinstance(start, _DefaultValue) and start != alias_start_mx", mode="eval").body
+                return True
         return False
 
     return mod if replace_in_func(mod, "Model._simplify_once", edit) else None
